@@ -132,6 +132,41 @@ fn sweep_selection(rep: &mut Report, store: &AnnotationStore, text: &str, b: usi
             }
         }
     }
+    // the same conversions through the other entry point of a bound selection, ResultItem<TextSelection>
+    if let Some(item) = ts.as_resultitem() {
+        for p in 0..=len {
+            rep.eval();
+            match guard(|| item.utf8byte(p)) {
+                Ok(Ok(bb)) if bb == table[p] => {}
+                Ok(other) => rep.violation(format!("C12/selection-as-resultitem/utf8byte/wrong/{}", phase), ctx(json!({"pos": p, "got": format!("{:?}", other.ok()), "want": table[p]}))),
+                Err(pn) => rep.violation(format!("C12/selection-as-resultitem/utf8byte/panic/{}", pn.class()), ctx(json!({"pos": p, "panic": pn.msg}))),
+            }
+        }
+        for bb in 0..=sub.len() {
+            rep.eval();
+            let want = table.iter().position(|x| *x == bb);
+            match guard(|| item.utf8byte_to_charpos(bb)) {
+                Err(pn) => rep.violation(format!("C12/selection-as-resultitem/utf8byte_to_charpos/panic/{}", pn.class()), ctx(json!({"byte": bb, "panic": pn.msg}))),
+                Ok(Ok(c)) => {
+                    if want != Some(c) {
+                        rep.violation(format!("C12/selection-as-resultitem/utf8byte_to_charpos/wrong/{}", if b == 0 { "selection-at-text-start" } else { "selection-inside-text" }), ctx(json!({"byte": bb, "got": c, "want": want})));
+                    }
+                }
+                Ok(Err(_)) => {
+                    if want.is_some() {
+                        rep.violation("C12/selection-as-resultitem/utf8byte_to_charpos/err-on-boundary", ctx(json!({"byte": bb, "want": want})));
+                    }
+                }
+            }
+        }
+        rep.eval();
+        match guard(|| item.text().to_string()) {
+            Ok(t) if t == sub => {}
+            Ok(t) => rep.violation("C12/selection-as-resultitem/text/wrong", ctx(json!({"got": t, "want": sub}))),
+            Err(pn) => rep.violation(format!("C12/selection-as-resultitem/text/panic/{}", pn.class()), ctx(json!({"panic": pn.msg}))),
+        }
+        rep.distinct(&format!("selection-as-resultitem/{}/{}", cfgname, if sub.is_ascii() { "ascii" } else { "multibyte" }));
+    }
     // text_by_offset on the selection agrees with slicing
     if len > 0 {
         rep.eval();
@@ -281,7 +316,7 @@ fn knob_case(rep: &mut Report, seed: u64, k: u64, thorough: bool) {
 }
 
 pub fn run(p: &Params, rep: &mut Report) {
-    rep.rule = "(a) for seeded texts over 1-4 byte codepoints (short: every sub-range; long 90-260 codepoints so that interval 100 matters) and each of 12 configurations (milestone interval 0,1,2,3,7,100 x shrink_to_fit), before and after annotations populate the position index: every position 0..=len+2 through utf8byte, every byte offset 0..=bytes+2 through utf8byte_to_charpos, round trip, on the resource and on sub-selections (bound and unbound), against a naive char_indices table; (b) the same seeded op-history replayed under the 12 configurations must yield identical full observations (all lookups) and identical segmentation / find_text / related_text answers. distinct_nontrivial = distinct (configuration, length class, multibyte?) cells + distinct store shapes compared".into();
+    rep.rule = "(a) for seeded texts over 1-4 byte codepoints (short: every sub-range; long 90-260 codepoints so that interval 100 matters) and each of 12 configurations (milestone interval 0,1,2,3,7,100 x shrink_to_fit), before and after annotations populate the position index: every position 0..=len+2 through utf8byte, every byte offset 0..=bytes+2 through utf8byte_to_charpos, round trip, on the resource and on sub-selections (bound and unbound; bound ones also through ResultItem<TextSelection>), against a naive char_indices table; (b) the same seeded op-history replayed under the 12 configurations must yield identical full observations (all lookups) and identical segmentation / find_text / related_text answers. distinct_nontrivial = distinct (configuration, length class, multibyte?) cells + distinct store shapes compared".into();
     rep.assumptions = vec!["utf8byte on a selection for a position beyond the selection but inside the resource is not judged (undocumented)".into()];
     let nconv: u64 = if p.thorough { 1500 } else { 200 };
     let nknob: u64 = if p.thorough { 3000 } else { 400 };
